@@ -126,6 +126,13 @@ def gen_strings(tier, seed):
               '{"type":"LineString","coordinates":[[0,0],[1,1],[0,1],[1,0]]}']:
         if emit(s):
             yield {'text': s}
+    # long inline GeoJSON (longer than a file name / a path may be): still text, not a path
+    import math
+    for nv in (24, 400):
+        ring = [[round(150 + 3 * math.cos(2 * math.pi * k / nv), 9), round(-20 + 2 * math.sin(2 * math.pi * k / nv), 9)] for k in range(nv)]
+        s = json.dumps({'type': 'Polygon', 'coordinates': [ring + [ring[0]]]})
+        if emit(s):
+            yield {'text': s}
     n_random = 300 if tier == 'quick' else 5000
     for _ in range(n_random):
         parts = [rng.choice(good if rng.random() < 0.8 else NUMS) for _ in range(rng.choice([4, 4, 4, 3, 5]))]
